@@ -43,6 +43,7 @@ class Opts:
         self.comp = True
         self.eq = False
         self.divmod = False
+        self.math_builtins = True   # floor / ceil / trunc (print as bare names: excluded where text is re-evaluated)
         self.allow_raise = True     # keep a raising op as the last op (else drop it)
         self.weights = None
         self.depth = 3
@@ -114,7 +115,7 @@ class Gen:
         builtins = ["abs"]
         if self.o.risky_ops:
             ops += G.DIVS + G.CMPS[:2]
-            builtins += ["round", "floor", "ceil", "trunc"]
+            builtins += ["round"] + (["floor", "ceil", "trunc"] if self.o.math_builtins else [])
         fn = {k: W.ast_loc(W.L("F", W.I(k))) for k in W.FN_NAMES} if self.o.calls else {}
         produced = set(m.written_by_task())
         weighted = cands + [k for k in cands if k in produced] * 3     # favour chains
